@@ -325,7 +325,8 @@ Proof.
   - destruct l; [reflexivity | discriminate].
   - rewrite pos_loop_nat.
     replace (Pos.to_nat p) with (length l) by lia.
-    rewrite (nat_loop_many w r wf Hrt l [] rest Hwf).
+    pose proof (nat_loop_many w r wf Hrt l [] rest Hwf) as Hm.
+    unfold bytes in *. rewrite Hm.
     now rewrite app_nil_r, rev_involutive.
   - lia.
 Qed.
@@ -372,7 +373,9 @@ Proof.
 Qed.
 
 (* ---------------------------------------------------------------------------------------- combinators *)
-Ltac rt_next H := rewrite <- ?app_assoc; erewrite bind_ok by (apply H; auto).
+Ltac rt_next_by H tac := rewrite <- ?app_assoc; erewrite bind_ok by (apply H; tac).
+Ltac rt_next H := rt_next_by H auto.
+Ltac rt_next_usize := rt_next_by rt_usize ltac:(cbv beta; unfold len in *; lia).
 
 Lemma rt_option {A} (w : A -> bytes) (r : Rd A) wf :
   RT w r wf -> RT (write_option w) (read_option r) (fun o => match o with Some v => wf v | None => True end).
@@ -401,7 +404,7 @@ Lemma rt_vec {A} (w : A -> bytes) (r : Rd A) wf :
   RT w r wf -> RT (write_vec w) (read_vec_of r) (fun l => Z.of_nat (length l) < 2 ^ 64 /\ Forall wf l).
 Proof.
   intros H l rest [Hlen Hwf]. unfold write_vec, read_vec_of.
-  rt_next rt_usize; [|cbv beta; lia].
+  rt_next_usize.
   now apply (rt_many w r wf).
 Qed.
 
@@ -418,7 +421,7 @@ Lemma rt_string (utf8_valid : bytes -> bool) :
   RT write_string (read_string utf8_valid) (fun s => len s < 2 ^ 64 /\ utf8_valid s = true).
 Proof.
   intros s rest [Hlen Hu]. unfold write_string, read_string.
-  rt_next rt_usize; [|cbv beta; unfold len in *; lia].
+  rt_next_usize.
   unfold len. erewrite bind_ok by (apply (rt_many write_u8 read_u8 (fun _ => True) rt_u8); apply Forall_forall; auto).
   now rewrite Hu.
 Qed.
@@ -481,7 +484,7 @@ Section OrderedProofs.
        (fun m => Z.of_nat (length m) < 2 ^ 64 /\ sorted_map m /\ Forall (fun kv => wfk (fst kv) /\ wfv (snd kv)) m).
   Proof.
     intros Hk Hv m rest (Hlen & Hs & Hwf). unfold write_map, read_map.
-    rt_next rt_usize; [|cbv beta; lia].
+    rt_next_usize.
     erewrite bind_ok by (apply (rt_many _ _ _ (rt_pair _ _ _ _ _ _ Hk Hv)); exact Hwf).
     unfold ret. now rewrite map_from_iter_sorted.
   Qed.
@@ -515,7 +518,7 @@ Section OrderedProofs.
     RT (write_set wk) (read_set ltb rk) (fun m => Z.of_nat (length m) < 2 ^ 64 /\ sorted_set m /\ Forall wfk m).
   Proof.
     intros Hk m rest (Hlen & Hs & Hwf). unfold write_set, read_set.
-    rt_next rt_usize; [|cbv beta; lia].
+    rt_next_usize.
     erewrite bind_ok by (apply (rt_many _ _ _ Hk); exact Hwf).
     unfold ret, set_from_iter. rewrite fold_set_insert_sorted; [reflexivity | exact Hs |].
     intros k _. constructor.
